@@ -58,4 +58,66 @@ PROPS = {
         "trusted_base": COMMON_TB + [SERDE_TB, CORE_TB, "Spec/Permitted.lean is a faithful transcription of the wire format's acceptance rules"],
         "assumptions": ["usize = 64 bits (host)", "types with sequences of zero-width elements are excluded from corrupted-length cases (decoding time is proportional to the claimed length by construction)"],
     },
+    "C05": {
+        "gens": ["C05"],
+        "rule": "op lines `sercap <framing> <storage> <cap> <value>` for every capacity 0..L+2 (L = complete output length; 8 capacities around L for long outputs), framing in {plain, cobs, 10 CRC algorithms}, storage in {slice between canary zones, heapless const-generic capacities}, plus `size <value>`; harness oracle: success iff cap >= L, bytes = unbounded output, at the front, rest of buffer untouched, canaries intact; non-trivial = distinct op line with cap within 2 of L",
+        "nontrivial": lambda op, a: True,
+        "project": lambda op, a: (a.split(" mem=")[0] if a.startswith("err") else a),
+        "classify": lambda op, a: tuple(op.split(" ", 3)[:3]) + (a.split(" ", 2)[0] + (" " + a.split(" ", 2)[1] if a.startswith("err") else ""),),
+        "diff_is_witness": False,
+        "trusted_base": COMMON_TB + [SERDE_TB, "heapless::Vec push/extend_from_slice atomicity MODELLED", "real out-of-bounds writes are observed through canary zones around the buffer, not proved (the list model cannot express them)"],
+        "assumptions": ["values are 'ordinary' (no collect_str payload failing mid-way)"],
+    },
+    "C06": {
+        "gens": ["C06"],
+        "rule": "`cobsspec <msg>` (real Cobs<AllocVec> vs Spec.cobsEncode ++ [0]) for ALL messages of length <= 6 (9 in thorough) over {00,01,02,FF}, run lengths 253..255/507..509/761..763 with zeros around them, random messages; `cobsenc` through the public Flavor API of Cobs<Slice|HVec|AllocVec> incl. too-small storage; `cobsval` (to_slice_cobs/to_vec_cobs/to_allocvec_cobs/to_stdvec_cobs agree, frame has one zero, decodes back); `cobsframes` buffers of 1..6 frames with/without last sentinel and with trailing bytes; non-trivial = distinct op line whose message/frame has >= 2 bytes",
+        "nontrivial": lambda op, a: len(op) > 14,
+        "diff_is_witness": True,
+        "exhaustive": {"quick": ["all 5,461 messages of length <= 6 over {00,01,02,FF}"], "thorough": ["all 349,525 messages of length <= 9 over {00,01,02,FF}"]},
+        "trusted_base": COMMON_TB + [SERDE_TB, "the cobs 0.2.3 crate is MODELLED in full (EncoderState, decode_raw!)", "Spec/Cobs.lean transcribes the COBS definition"],
+        "assumptions": [],
+    },
+    "C07": {
+        "gens": ["C07"],
+        "rule": "`cobsde <type> <bytes>`: from_bytes_cobs and take_from_bytes_cobs on ALL byte strings of length <= 5 (7 in thorough) over {00,01,02,03,FF} x 4 target types, valid frames with every truncation and every position corrupted, random bytes, long 0xFF-code frames; buffers sit between canary zones and the bytes at/after the sentinel are compared before/after; non-trivial = distinct op line with >= 1 input byte",
+        "nontrivial": lambda op, a: not op.endswith(" x"),
+        "diff_is_witness": True,
+        "exhaustive": {"quick": ["all 3,906 strings of length <= 5 over {00,01,02,03,FF} x 4 types"], "thorough": ["all 97,656 strings of length <= 7 x 4 types"]},
+        "trusted_base": COMMON_TB + [SERDE_TB, "the cobs 0.2.3 crate decode_raw! is MODELLED as an index loop over one list", "real memory safety observed through canaries, not proved"],
+        "assumptions": [],
+    },
+    "C08": {
+        "gens": ["C08"],
+        "rule": "`acc <N> <type> <chunk>*`: streams of valid/corrupt/empty/garbage segments (every segment fits) x EVERY one of the 2^(len-1) chunkings of streams of length <= 8 (13 in thorough) x capacities {longest, longest+1, 64} x 6 target types, plus long random histories; both feed and feed_ref; every FeedResult, remainder and the buffered bytes after every call are compared; harness oracle: one result per zero byte = isolated decoding, conservation; non-trivial = distinct op line with >= 2 chunks",
+        "nontrivial": lambda op, a: op.count(" x") >= 2,
+        "diff_is_witness": False,
+        "exhaustive": {"quick": ["all chunkings of 60 streams of length <= 8"], "thorough": ["all chunkings of 400 streams of length <= 13"]},
+        "trusted_base": COMMON_TB + [SERDE_TB, "hook CobsAccumulator::verif_buffered exposes buf[..idx]", "decoding of a frame is an abstract parameter decF in the theorems; in the driver it is the COBS+plain decoder model"],
+        "assumptions": ["'fits the capacity' = segment including its sentinel <= N, unterminated tail <= N (DESIGN §8)"],
+    },
+    "C09": {
+        "gens": ["C09"],
+        "rule": "as C08 but with over-long segments, garbage and capacities equal to, one/two less than and one more than the longest segment, and capacities 1 and 2; harness oracle: no panic, loop terminates within 2*len+2 calls, buffer empty after a zero, over-long first segment reported OverFull, fitting frame after a zero delivered intact; non-trivial = distinct op line with >= 2 chunks",
+        "nontrivial": lambda op, a: op.count(" x") >= 2,
+        "diff_is_witness": False,
+        "trusted_base": COMMON_TB + [SERDE_TB, "hook CobsAccumulator::verif_buffered exposes buf[..idx]"],
+        "assumptions": ["capacity >= 1 (the documented loop diverges for N = 0: theorem drain_diverges_zero)"],
+    },
+    "C10": {
+        "gens": ["C10"],
+        "rule": "`crcraw` (crc crate vs the Rocksoft bitwise model, 10 catalogue algorithms, widths 8/12/16/32/64/82), `crcser` (to_slice/to_vec/to_allocvec agree; frame = plain ++ LE checksum), `crcde` (valid, extended, every truncation, random damage), `crcdex`: per sampled frame EVERY single-bit flip of the frame and burst patterns <= width at every bit offset of the payload in the algorithm's own bit order must not be accepted with unchanged decoded length; non-trivial = distinct op line",
+        "nontrivial": lambda op, a: True,
+        "diff_is_witness": False,
+        "trusted_base": COMMON_TB + [SERDE_TB, "the crc 3.4 crate is MODELLED as the Rocksoft parametric bitwise algorithm (pinned to crc-catalog check values by kernel-evaluated examples, compared with the crate each run)", "digest = exactly the bytes the inner flavour handed out (derived model of the de CrcModifier)"],
+        "assumptions": ["bursts are contiguous in the algorithm's own bit order (LSB-first within bytes when refin) (DESIGN §8)"],
+    },
+    "C16": {
+        "gens": ["C16"],
+        "rule": "`key <path> <schema>`: both hashers (const via hook verif_hash_static on a leaked &'static tree, owned, owned-of-From-conversion, Key::for_owned_schema_path) must agree and equal the model (= FNV-1a over the documented stream, theorem hash_eq_spec) on EVERY node kind x 5 path classes (recovers both tag tables through the API), the crate's stability vector, random trees; `keydiff`/`keypath`: single-node mutations (type name must not change the key; field/variant name, order, element kind, path must); non-trivial = distinct op line",
+        "nontrivial": lambda op, a: True,
+        "diff_is_witness": True,
+        "exhaustive": {"quick": ["all 26 node kinds + 4 struct-data + 4 variant-data kinds x 5 paths"], "thorough": ["same"]},
+        "trusted_base": COMMON_TB + ["hook fnv1a64::verif_hash_static exposes the const hasher for arbitrary static schemas", "Spec/Fnv.lean transcribes FNV-1a-64 and the tag table documented in key/hash.rs"],
+        "assumptions": ["universal key sensitivity is false of any 64-bit hash; proved for single-byte stream changes, sampled beyond (DESIGN §8)"],
+    },
 }
